@@ -151,13 +151,14 @@ std::vector<Sub> vh_subs() {
     Sub s;
     s.name = "svp";  // svp_prepare + svp_apply_dft + vec_znx_idft(_tmp_a)
     s.fields = {{"k", 1, 16}, {"cfg", 0, 1}, {"fa", 0, 7}, {"fb", 0, 7}, {"abits", 1, 50}, {"bbits", 1, 50}, {"bias", 0, 2},
-                {"j", 0, 131071}, {"a_size", 0, 6}, {"res_size", 0, 6}, {"big_size", 0, 6}, {"a_pad", 0, 3},
+                {"j", 0, 131071}, {"a_size", 0, 20}, {"res_size", 0, 20}, {"big_size", 0, 20}, {"a_pad", 0, 3},
                 {"tmp_a", 0, 1}, {"prefill", 0, 3}, {"seed", 0, INT64_MAX - 1}};
     s.run = [](const Vals& v, Ctx& c) {
       const uint64_t k = v[0], n = 1ull << k;
       unsigned mask = v[1] ? spq::GENERIC : spq::FULL;
       uint64_t a_size = v[8], res_size = v[9], big_size = v[10];
       if (k >= 12) { a_size = std::min<uint64_t>(a_size, 2); res_size = std::min<uint64_t>(res_size, 3); big_size = std::min<uint64_t>(big_size, 3); }
+      else if (k >= 7) { a_size = std::min<uint64_t>(a_size, 10); res_size = std::min<uint64_t>(res_size, 10); big_size = std::min<uint64_t>(big_size, 10); }
       const uint64_t a_sl = n + v[11];
       const bool tmp_a = v[12];
       Rng r((uint64_t)v[14]);
